@@ -181,6 +181,7 @@ public:
 
         // Indicate that this is a step-m factorization
         m_k = to_m;
+        SPECTRA_VERIF_EVENT("factorize", *this);
     }
 
     // Apply H -> Q'HQ, where Q is from a tridiagonal QR decomposition
